@@ -112,6 +112,11 @@ structure EndpointReq where
       INPUT: that client is registered for private_key_jwt, the provider has the method switched on, the grant material is valid
       and that client's own) -/
   contextOK : Bool := false
+  /-- (deep 3) provenance (a fact about the INPUT): the assertion was made AND addressed by the library's own client code, which was
+      told only the issuer, the client id, the key id and the key (`profile.NewJWTProfileTokenSource(issuer, …).TokenCtx`,
+      `rs.NewResourceServerJWTProfile(issuer, …)` + `rs.Introspect`): audience, subject, times, header and signature are the
+      library's choice; the key is one the storage holds for that client under that key id -/
+  libraryAddressed : Bool := false
 
 /-- what the endpoint was observed to do -/
 structure EndpointObs where
@@ -170,7 +175,9 @@ def endpointHelper (registry : List (String × JWK)) (rq : EndpointReq) (obs : E
   | none => none
   | some c =>
     if rq.helperMade && c.aud.contains rq.reqIssuer && c.sub == c.iss && signedByRegisteredKey registry c.iss rq.assertion && !obs.accepted
-    then some "helper-assertion-rejected" else none
+    then some "helper-assertion-rejected"
+    else if rq.helperMade && rq.libraryAddressed && !obs.accepted then some "helper-assertion-rejected"
+    else none
 
 /-- (completeness, any origin) an assertion that is properly made for the ADDRESSED issuer at both ends of the call - hence at
     every instant in between: each time condition is monotone - must be honoured when the rest of the request is in order -/
@@ -179,5 +186,37 @@ def endpointProper (registry : List (String × JWK)) (rq : EndpointReq) (now0 no
       && (properlyMade rq.reqIssuer providerMaxAgeIAT providerOffset registry rq.assertion now0).isSome
       && (properlyMade rq.reqIssuer providerMaxAgeIAT providerOffset registry rq.assertion now1).isSome
   then some "proper-assertion-rejected" else none
+
+end C14
+
+/-! ### One verifier object, many assertions (deep 3)
+
+`op.NewJWTProfileVerifier` takes a FIXED issuer: an OP may keep one `*op.JWTProfileVerifier` for its whole life and hand it to
+`op.VerifyJWTAssertion` / `ClientJWTAuth` / `AuthorizePrivateJWTKey` / the jwt-bearer grant for every request.  The statement
+speaks about each assertion on its own ("signed with a key the storage holds for the client named as issuer"): every answer of
+such an object is judged INDEPENDENTLY of what the object was asked before - there is no history argument below. -/
+namespace C14
+
+/-- one answer of a verifier (issuer, max age, offset, default subject check or a custom one; `registry` = the client keys
+    the storage holds) to the assertion `t`, asked between the instants `now0` and `now1`: `accepted = some claims` or a refusal.
+    * soundness: an accepted assertion meets `assertionOK` (a time-dependent clause counts only when it fails at both ends);
+    * the library's own helper: an assertion that `client.SignedJWTProfileAssertion` / `oidc.GenerateJWTProfileToken` made
+      (`helperMade`: a fact about the INPUT - the helper was called with this verifier's issuer in the audience list, with a
+      key the storage holds for the named client and with the key id the storage holds it under; everything else about the
+      token is the helper's doing) is accepted;
+    * any origin: an assertion properly made at both ends of the call (default subject check) is accepted. -/
+def sequenceStepOK (issuer : String) (maxAgeIAT offset : Int) (subjectMustBeIssuer : Bool) (registry : List (String × JWK))
+    (t : Token) (helperMade : Bool) (now0 now1 : Int) (accepted : Option Claims) : Option String :=
+  match accepted with
+  | some c =>
+    match assertionOK issuer maxAgeIAT offset subjectMustBeIssuer registry t now0 c,
+          assertionOK issuer maxAgeIAT offset subjectMustBeIssuer registry t now1 c with
+    | some cl, some _ => some cl
+    | _, _ => none
+  | none =>
+    if helperMade then some "helper-assertion-rejected"
+    else if subjectMustBeIssuer && (properlyMade issuer maxAgeIAT offset registry t now0).isSome
+              && (properlyMade issuer maxAgeIAT offset registry t now1).isSome then some "proper-assertion-rejected"
+    else none
 
 end C14
